@@ -240,6 +240,8 @@ fn run_chk_child(ctx: &Ctx, id: &str) {
                 ctx.absorb_child(&v);
                 got = true;
             }
+        } else if line.starts_with("KNOWN-FINDING:") && ctx.known_already_printed(&line) {
+            // the same finding was already reported by this (opt) process
         } else {
             println!("{}", line);
         }
